@@ -85,10 +85,9 @@ def r1(ctx, prog):
                     ok = False
                     why.append("%s does not receive the checked total" % f.nodes[o]["callee"])
             # overflow edge returns NULL
-            hit = [q for p, q, e, pol in rl.edges_with_fact(f, lambda e, pol: isinstance(e, int) and pol and rl.is_call(f, f.strip(e), "mi_count_size_overflow"))]
-            for q in hit:
-                rets = [cfg.elem_at(p) for p in cfg.reach([q]) if cfg.elem_at(p) is not None and f.nodes[cfg.elem_at(p)]["k"] == "ReturnStmt"]
-                if not rets or any(f.cv(f.nodes[r].get("val", -1)) != 0 for r in rets):
+            hit = [(p, q) for p, q, e, pol in rl.edges_with_fact(f, lambda e, pol: isinstance(e, int) and pol and rl.is_call(f, f.strip(e), "mi_count_size_overflow"))]
+            for p_, q in hit:
+                if not rl.returns_only(f, q, 0, src=p_):
                     ok = False
                     why.append("the overflow edge does not return NULL")
             if not hit:
@@ -142,8 +141,7 @@ def r2(ctx, prog):
     hit = [q for p, q, e, pol in rl.edges_with_fact(f, above)]
     ok = bool(hit)
     for q in hit:
-        rets = [cfg.elem_at(p) for p in cfg.reach([q]) if cfg.elem_at(p) is not None and f.nodes[cfg.elem_at(p)]["k"] == "ReturnStmt"]
-        ok = ok and rets and all(f.cv(f.nodes[r].get("val", -1)) == 0 for r in rets)
+        ok = ok and rl.returns_only(f, q, 0)
     ctx.check(R, ok, f.where(), "a request above the ceiling returns NULL", key="C06.R2:find_page:null")
     # small/medium path is only taken below MI_MEDIUM_OBJ_SIZE_MAX
     g = prog.fn("mi_heap_malloc_zero_aligned_at_generic")
